@@ -49,7 +49,20 @@ type absEntry struct {
 	V       int      `json:"v"`
 	Cid     string   `json:"cid"`
 	Ct      int      `json:"ct"`
+	Ctb     string   `json:"ctb"` // clock-time magnitude class: the real time is base(ctb) + ct
 	Key     string   `json:"key"`
+}
+
+// realTime concretises a clock time: "small" as it is, "big53" / "big62" shifted to 2^53 / 2^62
+// (integers a float64 cannot all represent)
+func (a *absEntry) realTime() int {
+	switch a.Ctb {
+	case "big53":
+		return 1<<53 + a.Ct
+	case "big62":
+		return 1<<62 + a.Ct
+	}
+	return a.Ct
 }
 
 type dev struct {
@@ -133,6 +146,9 @@ func normAbs(a *absEntry) *absEntry {
 	}
 	if a.Refs == nil {
 		a.Refs = []string{}
+	}
+	if a.Ctb == "" {
+		a.Ctb = "small"
 	}
 	return a
 }
@@ -218,7 +234,7 @@ func (env *codecEnv) build(a *absEntry, variant int, io iface.IO) (iface.IPFSLog
 	id := env.identityOf(a.Key)
 	return entry.CreateEntryWithIO(env.ctx, env.api, id, &entry.Entry{
 		LogID: a.ID, Payload: env.payloadOf(a.Payload, variant), Next: env.linksOf(a.Next), Refs: env.linksOf(a.Refs),
-		Clock: entry.NewLamportClock(env.identityOf(a.Cid).PublicKey, a.Ct),
+		Clock: entry.NewLamportClock(env.identityOf(a.Cid).PublicKey, a.realTime()),
 	}, nil, io)
 }
 
@@ -256,9 +272,9 @@ func (env *codecEnv) runC07(ob *obligation, variant int, io iface.IO, sealed boo
 	case "v":
 		m.SetV(uint64(ob.E2.V))
 	case "clock.id":
-		m.SetClock(entry.NewLamportClock(env.identityOf(ob.E2.Cid).PublicKey, ob.E2.Ct))
+		m.SetClock(entry.NewLamportClock(env.identityOf(ob.E2.Cid).PublicKey, ob.E2.realTime()))
 	case "clock.time":
-		m.SetClock(entry.NewLamportClock(env.identityOf(ob.E2.Cid).PublicKey, ob.E2.Ct))
+		m.SetClock(entry.NewLamportClock(env.identityOf(ob.E2.Cid).PublicKey, ob.E2.realTime()))
 	case "key":
 		m.SetKey(env.identityOf(ob.E2.Key).PublicKey)
 	default:
